@@ -1001,7 +1001,8 @@ def r148(ctx, R):
         t, neg = i.test, False
         if isinstance(t, ast.UnaryOp) and isinstance(t.op, ast.Not):
             t, neg = t.operand, True
-        g = G.gate_of(f, t)
+        # the test itself, or a local flag bound to it
+        g = C.flag_gate(ctx, f, t)
         if g is not None and g.minv == (1, 26):
             new, old = (i.orelse, i.body) if neg else (i.body, i.orelse)
             sel.append((new, old))
